@@ -16,7 +16,7 @@ theorem nodupB_of_nodup (q : List Nat) (h : q.Nodup) : nodupB q = true := by
     | false => rfl
     | true => exact absurd (List.contains_iff_mem.mp hc) h'.1
 
-theorem blockedB_of_blocked {s : State} (hi : InvX none s) (t : Nat) (acts : Script)
+theorem blockedB_of_blocked {s : State} (hi : InvX false none s) (t : Nat) (acts : Script)
     (hb : Blocked s t acts) : blockedB s t acts = true := by
   rcases hb with ⟨k, rest, rfl, hm, hz⟩ | ⟨c, cs, rest, rfl, hk, hr⟩
   · simp only [blockedB, Bool.and_eq_true, beq_iff_eq]
@@ -30,7 +30,7 @@ theorem blockedB_of_blocked {s : State} (hi : InvX none s) (t : Nat) (acts : Scr
       | some _ => rfl
     simp only [blockedB, hk, hr, hfc, Bool.and_true, beq_self_eq_true]
 
-theorem noLostB_of_inv {s : State} (hi : InvX none s) : noLostB s = true := by
+theorem noLostB_of_inv {s : State} (hi : InvX false none s) : noLostB s = true := by
   unfold noLostB
   rw [List.all_eq_true]
   intro t ht
@@ -39,11 +39,11 @@ theorem noLostB_of_inv {s : State} (hi : InvX none s) : noLostB s = true := by
   | none => rfl
   | some acts =>
     simp only [Bool.or_eq_true]
-    rcases hi.live t acts ht' (by simp) hf with hq | hb
+    rcases hi.live t acts rfl ht' (by simp) hf with hq | hb
     · exact Or.inl (List.contains_iff_mem.mpr hq)
     · exact Or.inr (blockedB_of_blocked hi t acts hb)
 
-theorem stallB_of_inv {s : State} (hi : InvX none s) : stallB s = true := by
+theorem stallB_of_inv {s : State} (hi : InvX false none s) : stallB s = true := by
   unfold stallB
   cases hq : s.queue with
   | cons a q => simp
@@ -55,7 +55,7 @@ theorem stallB_of_inv {s : State} (hi : InvX none s) : stallB s = true := by
     cases hf : s.fut t with
     | none => rfl
     | some acts =>
-      rcases hi.live t acts ht' (by simp) hf with hm | hb
+      rcases hi.live t acts rfl ht' (by simp) hf with hm | hb
       · rw [hq] at hm; cases hm
       · exact blockedB_of_blocked hi t acts hb
 
@@ -88,7 +88,7 @@ theorem bracketedB_of (log : List Ev) (h : Bracketed log) : bracketedB log = tru
     | noop t => simpa [List.flatMap_cons, Seg.events, bracketedB] using ih
     | polled t b => simpa [List.flatMap_cons, Seg.events, bracketedB] using ih
 
-theorem relayB_of_inv {s : State} (hi : InvX none s) : relayB s = true := by
+theorem relayB_of_inv {s : State} (hi : InvX false none s) : relayB s = true := by
   unfold relayB
   rw [List.all_eq_true]
   intro c hc
@@ -105,7 +105,7 @@ theorem relayB_of_inv {s : State} (hi : InvX none s) : relayB s = true := by
       | false => rfl
       | true => rw [hs.mpr hsent] at hf; cases hf
 
-theorem checkB_of_inv {s : State} (hi : InvX none s) (ht : TraceInv s) : checkB s = none := by
+theorem checkB_of_inv {s : State} (hi : InvX false none s) (ht : TraceInv s) : checkB s = none := by
   have h2 : s.queue.all (· < s.ntasks) = true := by
     rw [List.all_eq_true]; intro x hx; simpa using hi.qlt x hx
   simp [checkB, nodupB_of_nodup _ hi.nodup, h2, noLostB_of_inv hi, stallB_of_inv hi,
@@ -117,5 +117,108 @@ theorem fifoB_of_step (s : State) (r : State × Bool) (h : step s = some r) :
   unfold fifoB
   rw [hl, List.isPrefixOf_iff_prefix]
   exact List.prefix_append _ _
+
+/-! ### the checks of the Spec mean what they say (both directions) -/
+
+theorem nodupB_iff (q : List Nat) : nodupB q = true ↔ q.Nodup := by
+  constructor
+  · intro h
+    induction q with
+    | nil => exact List.nodup_nil
+    | cons a t ih =>
+      simp only [nodupB, Bool.and_eq_true, Bool.not_eq_true'] at h
+      refine List.nodup_cons.mpr ⟨?_, ih h.2⟩
+      intro hm
+      have := List.contains_iff_mem.mpr hm
+      rw [h.1] at this; cases this
+  · exact nodupB_of_nodup q
+
+theorem fifoB_iff (a b : List Nat) : fifoB a b = true ↔ ∃ l, b = a.tail ++ l := by
+  unfold fifoB
+  rw [List.isPrefixOf_iff_prefix]
+  constructor
+  · rintro ⟨l, hl⟩; exact ⟨l, hl.symm⟩
+  · rintro ⟨l, hl⟩; exact ⟨l, hl.symm⟩
+
+theorem blockedB_iff (s : State) (t : Nat) (acts : Script) :
+    blockedB s t acts = true ↔
+      (∃ k rest, acts = .wait k :: rest ∧ t ∈ s.waiters k ∧ s.tokens k = 0) ∨
+      (∃ c cs rest, acts = .join :: rest ∧ s.kids t = c :: cs ∧ s.relay c = .polled t ∧ (s.fut c).isSome = true) := by
+  cases acts with
+  | nil => simp [blockedB]
+  | cons a rest =>
+    cases a with
+    | wait k => simp [blockedB, List.contains_iff_mem]
+    | join =>
+      cases hk : s.kids t with
+      | nil => simp [blockedB, hk]
+      | cons c cs => simp [blockedB, hk]
+    | yield => simp [blockedB]
+    | signal k => simp [blockedB]
+    | spawn => simp [blockedB]
+    | complete => simp [blockedB]
+
+theorem noLostB_iff (s : State) :
+    noLostB s = true ↔
+      ∀ t acts, t < s.ntasks → s.fut t = some acts → t ∈ s.queue ∨ blockedB s t acts = true := by
+  unfold noLostB
+  rw [List.all_eq_true]
+  constructor
+  · intro h t acts ht hf
+    have := h t (List.mem_range.mpr ht)
+    rw [hf] at this
+    simpa [List.contains_iff_mem] using this
+  · intro h t ht
+    cases hf : s.fut t with
+    | none => rfl
+    | some acts =>
+      have := h t acts (List.mem_range.mp ht) hf
+      simpa [List.contains_iff_mem] using this
+
+theorem bracketedB_iff (log : List Ev) : bracketedB log = true ↔ Bracketed log := by
+  constructor
+  · intro h
+    fun_induction bracketedB log with
+    | case1 => exact ⟨[], rfl⟩
+    | case2 t rest ih =>
+      obtain ⟨segs, e⟩ := ih h
+      exact ⟨.noop t :: segs, by simp [List.flatMap_cons, Seg.events, e]⟩
+    | case3 t t' b rest ih =>
+      simp only [Bool.and_eq_true, beq_iff_eq] at h
+      obtain ⟨segs, e⟩ := ih h.2
+      exact ⟨.polled t b :: segs, by simp [List.flatMap_cons, Seg.events, e, h.1]⟩
+    | case4 => cases h
+  · exact bracketedB_of log
+
+/-- `noPollAfterFinB` is exactly: for positions `i < j`, `log[i] = ret t true` ⇒ `log[j] ≠ poll t` -/
+theorem noPollAfterFinB_iff (log : List Ev) :
+    noPollAfterFinB log = true ↔ log.Pairwise fun e e' => ∀ t, e = .ret t true → e' ≠ .poll t := by
+  induction log with
+  | nil => simp [noPollAfterFinB]
+  | cons e rest ih =>
+    rw [List.pairwise_cons, ← ih]
+    cases e with
+    | poll t => simp [noPollAfterFinB]
+    | noop t => simp [noPollAfterFinB]
+    | ret t b =>
+      cases b with
+      | false => simp [noPollAfterFinB]
+      | true =>
+        simp only [noPollAfterFinB, Bool.and_eq_true, Bool.not_eq_true']
+        constructor
+        · rintro ⟨h1, h2⟩
+          refine ⟨?_, h2⟩
+          intro e' he' t' ht'
+          injection ht' with ht' _
+          subst ht'
+          intro e''
+          subst e''
+          have := List.contains_iff_mem.mpr he'
+          rw [h1] at this; cases this
+        · rintro ⟨h1, h2⟩
+          refine ⟨?_, h2⟩
+          cases hc : rest.contains (Ev.poll t) with
+          | false => rfl
+          | true => exact absurd rfl (h1 _ (List.contains_iff_mem.mp hc) t rfl)
 
 end YashModel.Executor
